@@ -25,7 +25,7 @@ RULE = (
     "Non-trivial = the cell produced a value, or failed/refused inside graph construction, compute or the eager kernel "
     "with a chunked input."
 )
-BUDGET = {"quick": 700, "thorough": 300}
+BUDGET = {"quick": 1050, "thorough": 6300}
 WALL = {"quick": 500, "thorough": 3400}
 ASSUMPTIONS = [
     "engine='numba' cells are sampled sparsely in the quick tier (JIT cost)",
